@@ -667,3 +667,124 @@ Fixpoint wf_block (ops : list sop) (seen : list sval) : bool :=
   | SUse id args :: r => negb (existsb (mentions_u id) (args ++ seen)) && wf_block r (VOut id :: args ++ seen)
   end.
 
+
+(* ---- prune_uses_without_definitions: symbols that are NOT declared in the block (cells of an
+   enclosing scope): at most the first fetch and the last update survive ---------------------------- *)
+Definition uses_fetch (r : nat) (ops : list sop) : bool :=
+  existsb (fun o => match o with
+                    | SUpdate _ v => mentions_f r v
+                    | SUse _ args => existsb (mentions_f r) args
+                    | _ => false
+                    end) ops.
+Definition prune_unused_reads (ops : list sop) : list sop :=
+  filter (fun o => match o with SFetch _ r => uses_fetch r ops | _ => true end) ops.
+Definition symbols_of (ops : list sop) : list nat :=
+  nodup Nat.eq_dec (flat_map (fun o => match o with
+                                       | SDeclare s | SUpdate s _ | SFetch s _ => [s]
+                                       | SUse _ _ => []
+                                       end) ops).
+(* position of the last fetch / first update of s (None when there is none) *)
+Fixpoint last_read_pos (s : nat) (ops : list sop) (i : nat) (acc : option nat) : option nat :=
+  match ops with
+  | [] => acc
+  | SFetch s' _ :: r => last_read_pos s r (S i) (if Nat.eqb s s' then Some i else acc)
+  | _ :: r => last_read_pos s r (S i) acc
+  end.
+Fixpoint first_write_pos (s : nat) (ops : list sop) (i : nat) : option nat :=
+  match ops with
+  | [] => None
+  | SUpdate s' _ :: r => if Nat.eqb s s' then Some i else first_write_pos s r (S i)
+  | _ :: r => first_write_pos s r (S i)
+  end.
+(* one symbol of the worklist; the flag says whether it is now `prepared` *)
+Definition prepare_symbol (s : nat) (ops : list sop) : list sop * bool :=
+  let dedupe r0 rest cur := fold_left (fun c r => replace_fetch r (VFetch r0) c) rest cur in
+  match reads_of s ops, writes_of s ops with
+  | [], _ => (erase_updates_of s true ops, true)
+  | r0 :: rest, [] => (dedupe r0 rest ops, true)
+  | r0 :: rest, _ :: _ =>
+      match last_read_pos s ops 0 None, first_write_pos s ops 0 with
+      | Some lr, Some fw =>
+          if Nat.ltb lr fw then (erase_updates_of s true (dedupe r0 rest ops), true)
+          else (forward_reads s ops, false)
+      | _, _ => (ops, true)
+      end
+  end.
+Fixpoint prune_uses (fuel : nat) (ops : list sop) (prepared : list nat) : dres :=
+  match fuel with
+  | O => DLoop
+  | S f =>
+      let ops1 := prune_unused_reads ops in
+      match filter (fun s => negb (existsb (Nat.eqb s) prepared)) (symbols_of ops1) with
+      | [] => DOk ops1
+      | wl =>
+          let '(ops2, prep2) :=
+            fold_left (fun (acc : list sop * list nat) s =>
+                         let '(cur, prep) := acc in
+                         let '(cur', done) := prepare_symbol s cur in
+                         (cur', if done then s :: prep else prep)) wl (ops1, prepared) in
+          prune_uses f ops2 prep2
+      end
+  end.
+(* prepare_block on a block without nested regions *)
+Definition desym_block (ops : list sop) : dres :=
+  match prune_definitions 40 ops with
+  | DLoop => DLoop
+  | DOk r => prune_uses 40 r []
+  end.
+
+(* reference for blocks that also use symbols of an enclosing scope: a fetch that cannot be forwarded
+   stays and from then on IS the known content of the cell; of the updates of such a symbol only the
+   last one stays (with its operand resolved) *)
+Definition later_update (s : nat) (ops : list sop) : bool :=
+  existsb (fun o => match o with SUpdate s' _ => Nat.eqb s s' | _ => false end) ops.
+Fixpoint forward2 (decl : list nat) (ops : list sop) (sm fm : list (nat * sval)) : list sop :=
+  match ops with
+  | [] => []
+  | SDeclare s :: rest => forward2 decl rest sm fm
+  | SUpdate s v :: rest =>
+      let v' := resolve fm v in
+      if existsb (Nat.eqb s) decl || later_update s rest
+      then forward2 decl rest ((s, v') :: sm) fm
+      else SUpdate s v' :: forward2 decl rest ((s, v') :: sm) fm
+  | SFetch s r :: rest =>
+      match sym_lookup s sm with
+      | Some v => forward2 decl rest sm ((r, v) :: fm)
+      | None => SFetch s r :: forward2 decl rest ((s, VFetch r) :: sm) fm
+      end
+  | SUse id args :: rest => SUse id (map (resolve fm) args) :: forward2 decl rest sm fm
+  end.
+
+(* ---- reference semantics of a single block with symbols: a store of cells --------------------------- *)
+Definition fenv := nat -> option Z.
+Definition upd (f : fenv) (k : nat) (z : Z) : fenv := fun k' => if Nat.eqb k' k then Some z else f k'.
+Section SymSem.
+Variable outv : nat -> Z.                 (* values defined outside the block (constants, arguments) *)
+Variable usef : nat -> list Z -> Z.       (* what the op with result id computes from its operand values *)
+Variable init : nat -> Z.                 (* content of a symbol's cell on entry (symbols of an outer scope) *)
+Definition sym_valof (fe ue : fenv) (v : sval) : Z :=
+  match v with
+  | VOut n => match ue n with Some z => z | None => outv n end
+  | VFetch r => match fe r with Some z => z | None => 0 end
+  end.
+Definition sym_cell (sy : fenv) (s : nat) : Z := match sy s with Some z => z | None => init s end.
+(* the observable result: the values the non-symref ops compute, in order *)
+Fixpoint sym_run (ops : list sop) (sy fe ue : fenv) : list (nat * Z) :=
+  match ops with
+  | [] => []
+  | SDeclare _ :: r => sym_run r sy fe ue
+  | SUpdate s v :: r => sym_run r (upd sy s (sym_valof fe ue v)) fe ue
+  | SFetch s x :: r => sym_run r sy (upd fe x (sym_cell sy s)) ue
+  | SUse id args :: r =>
+      let z := usef id (map (sym_valof fe ue) args) in (id, z) :: sym_run r sy fe (upd ue id z)
+  end.
+(* content of the cells after the block *)
+Fixpoint sym_final (ops : list sop) (sy fe ue : fenv) : fenv :=
+  match ops with
+  | [] => sy
+  | SDeclare _ :: r => sym_final r sy fe ue
+  | SUpdate s v :: r => sym_final r (upd sy s (sym_valof fe ue v)) fe ue
+  | SFetch s x :: r => sym_final r sy (upd fe x (sym_cell sy s)) ue
+  | SUse id args :: r => sym_final r sy fe (upd ue id (usef id (map (sym_valof fe ue) args)))
+  end.
+End SymSem.
